@@ -15,10 +15,11 @@ def p_c12(facts, rep, tier):
     rep.floor("C12 guardfx functions", n_fn, 5)
     rep.floor("C12 guardfx effect sites", n_eff, 20)
     rep.floor("C12 guardfx guards", n_guard, 9)
-    import witness
+    if tier != "control":
+        import witness
 
-    nw = witness.run(rep, ["c12"])
-    rep.floor("C12 witness doctests", nw, 6)
+        nw = witness.run(rep, ["c12"])
+        rep.floor("C12 witness doctests", nw, 6)
     rep.assume(
         "effects are exactly the calls/stores of the effect table in rules/guardfx.py (rollback log, root, marker, overlay status, store commit)",
         "path feasibility is ignored (every CFG path is considered executable)",
@@ -92,7 +93,6 @@ def p_c14(facts, rep, tier):
     rep.floor("R3 join sites", nj, 11)
     rep.floor("R4 fallible calls at/after an effect", n4, 9)
     rep.floor("poisoned-refusal guard", n_guard, 1)
-    rep.extra["positive_controls"] = errflow.positive_controls()
     rep.assume(
         "accepted consumption idioms: `?`, unwrap/expect, match/if-let on the discriminant, return, move into a call/aggregate/field (responsibility transfers)",
         "discarding consumers are exactly rules/errflow.py DISCARDERS",
@@ -161,10 +161,11 @@ def p_c08(facts, rep, tier):
     rep.floor("S1 obligations", n1, 8)
     rep.floor("S2 obligations", n2, 14)
     rep.floor("S3 error variants", n3, 16)
-    import witness
+    if tier != "control":
+        import witness
 
-    nw = witness.run(rep, ["c08"])
-    rep.floor("C08 witness doctests", nw, 4)
+        nw = witness.run(rep, ["c08"])
+        rep.floor("C08 witness doctests", nw, 4)
     rep.assume("collision resistance and domain separation of the hasher", "the comparisons themselves (`<` vs `<=`, which bits) are not validated")
     rep.trust("rustc MIR (nightly, mir-opt-level=0)", "rules/vguard.py tables")
 
@@ -193,7 +194,7 @@ def p_c15(facts, rep, tier):
     n5 = lockgraph.l5(facts, rep, M)
     n6 = lockgraph.l6(facts, rep, M)
     n7 = lockgraph.l7(facts, rep, M)
-    nw = witness.run(rep, ["c15"])
+    nw = witness.run(rep, ["c15"]) if tier != "control" else 99
     rep.floor("lock classes", len(rep.extra["lock_classes"]), 24)
     rep.floor("acquisition sites", rep.extra["acquisition_sites"], 65)
     rep.floor("held->acquired pairs", npairs, 60)
@@ -304,6 +305,7 @@ def p_c17(facts, rep, tier):
     ctx = sync_ctx(facts)
     n1 = syncorder.w1(ctx, rep)
     n2 = syncorder.w2(ctx, rep)
+    n2 += syncorder.w2_freelist(ctx, rep)
     n3 = syncorder.w3(ctx, rep)
     n4 = syncorder.w4(ctx, rep)
     n5 = syncorder.o3(ctx, rep)
@@ -328,9 +330,22 @@ PROPS = {
 
 
 def run_property(prop, tier, seed):
+    import controls
+
     rep = core.Report(prop, tier, seed)
     d = core.ensure_facts("default")
     facts = core.Facts(d)
     facts.check_floors()
     PROPS[prop](facts, rep, tier)
-    return core.finish(rep)
+
+    def runner(f2, r2, t2):
+        r2.is_control = True
+        PROPS[prop](f2, r2, "control")
+
+    rep.extra["positive_controls"] = controls.run_for(prop, facts, runner)
+    cfgs = ["default"]
+    if tier == "thorough":
+        import thorough
+
+        cfgs += thorough.run(prop, rep, seed)
+    return core.finish(rep, cfgs)
